@@ -11,7 +11,7 @@ from .sync_common import entry_point
 from .C03 import root_ptr
 from . import C13
 
-UNITS = ["object", "queue", "semaphore", "event/event", "init", "data", "source"]
+UNITS = ["object", "queue", "semaphore", "event/event", "event/event_epoll", "init", "data", "source"]
 
 
 def strip_casts(fn, op):
@@ -349,6 +349,82 @@ def rule_TM6(rep, prog):
                     "sampled after a disarm" if used else "missing"), sample={"call": r.callee, "armed_tests": len(used)})
 
 
+def rule_KA7(rep, prog, q):
+    rid = rep.rule("C17-KA7", "keep-alive around client code: the run-loop entry point holds its own reference on the queue across the drain of one item (the item "
+                   "may drop the owner's last reference; the hand-over of pending items must then wait until the item has returned)", floor=1)
+    n = 0
+    for fn in prog.all_functions():
+        for c in calls_named(fn, "_dispatch_runloop_queue_drain_one"):
+            if fn.name == "_dispatch_runloop_queue_drain_one":
+                continue
+            n += 1
+            rep.saw(fn)
+            obj = root_ptr(fn, c.ops[0])
+            ret = [r for r in calls_named(fn, ("dispatch_retain", "_dispatch_retain", "_os_object_retain")) if root_ptr(fn, r.ops[0]) == obj and fn.dominates(r, c)]
+            rel = [r for r in calls_named(fn, ("dispatch_release", "_dispatch_release", "_os_object_release", "_dispatch_release_tailcall")) if root_ptr(fn, r.ops[0]) == obj]
+            ok = bool(ret) and bool(rel) and fn.must_pass(c, rel)[0]
+            rep.require(rid, ok, c.loc, fn.name, "drain-without-own-reference:%s" % fn.name,
+                        "%s drains an item of a run-loop queue without holding its own reference across the call: when the item releases the queue's last "
+                        "reference the pending items are handed to worker threads at once, so the next items of this serial queue start while the current "
+                        "one is still running (and the owner thread then uses a released queue)" % fn.name, sample={"fn": fn.name, "retains": len(ret), "releases": len(rel)})
+    if n < 1:
+        rep.unknown(rid, "no caller of _dispatch_runloop_queue_drain_one found")
+
+
+def rule_WR8(rep, prog, q):
+    rid = rep.rule("C17-WR8", "the queue recorded in a block object's private data carries +2 exactly while it is recorded: dbpd_queue is installed only by a "
+                   "compare-exchange from NULL whose success edge retains that queue (+2), and taken back only by an exchange with NULL (whose result is released)", floor=4)
+    n = 0
+    for fn in prog.all_functions():
+        for i in fn.all_insts():
+            if i.op not in ("store", "atomicrmw", "cmpxchg") or "dbpd_queue" not in prog.fields(i):
+                continue
+            n += 1
+            rep.saw(fn)
+            if i.op == "cmpxchg":
+                ok = i.ops[1][0] == "n" or (i.ops[1][0] == "c" and i.ops[1][1] == 0)
+                newq = root_ptr(fn, i.ops[2])
+                ret = [r for r in calls_named(fn, "_dispatch_retain_2") if root_ptr(fn, r.ops[0]) == newq and fn.inst_reaches(i, r)]
+                ok = ok and bool(ret)
+                why = "a compare-exchange that does not start from NULL or is not followed by _dispatch_retain_2 of the installed queue"
+            elif i.op == "atomicrmw":
+                ok = i.d.get("rmw") == "xchg" and (i.ops[1][0] == "n" or (i.ops[1][0] == "c" and i.ops[1][1] == 0))
+                why = "an exchange that installs a non-NULL queue (it overwrites a queue that still owns its +2 and records one that never got it)"
+            else:
+                ok = i.ops[0][0] == "n" or (i.ops[0][0] == "c" and i.ops[0][1] == 0) or fn.name in ("_dispatch_block_create_with_voucher_and_priority", "_dispatch_block_create", "_dispatch_block_special_invoke")
+                why = "a plain store"
+            rep.require(rid, ok, i.loc, i.origin, "block-queue-record-unbalanced:%s" % i.origin,
+                        "%s writes dbpd_queue with %s: a block object submitted to a second queue while still pending on the first releases two references "
+                        "on a queue that were never taken (over-release) and strands the first queue's +2" % (i.origin, why), sample={"fn": i.origin, "op": i.op})
+    if n < 4:
+        rep.unknown(rid, "fewer than 4 writers of dbpd_queue found (%d)" % n)
+
+
+def rule_MP9(rep, prog, q):
+    rid = rep.rule("C17-MP9", "an event delivered to a source consumes one owner reference (dux_merge_evt releases it): every delivery from the epoll backend is "
+                   "preceded, on every path, by _dispatch_retain_unote_owner of the same unote - in the delivering function or in each of its callers", floor=4)
+    n = 0
+    funcs = [f for f in prog.all_functions() if f.file.endswith("event_epoll.c") or f.module.unit == "event/event_epoll"]
+    for fn in funcs:
+        for c in icalls_slot(prog, fn, "dst_merge_evt"):
+            n += 1
+            rep.saw(fn)
+            du = root_ptr(fn, c.ops[0])
+            rets = [r for r in calls_named(fn, "_dispatch_retain_unote_owner") if fn.dominates(r, c) and (root_ptr(fn, r.ops[0]) == du or du[0] != "a")]
+            ok = bool(rets)
+            if not ok and du[0] == "a":
+                # the reference may be taken by the callers of this helper: then by every one of them
+                callers = [(f2, cc) for f2 in prog.all_functions() for cc in f2.calls(fn.name)]
+                ok = bool(callers) and all(any(f2.dominates(r, cc) and root_ptr(f2, r.ops[0]) == root_ptr(f2, cc.ops[du[1]])
+                                               for r in calls_named(f2, "_dispatch_retain_unote_owner")) for f2, cc in callers)
+            rep.require(rid, ok, c.loc, fn.name, "event-delivered-without-owner-reference:%s" % fn.name,
+                        "%s delivers an event (dux_merge_evt, which consumes one owner reference) on a path where no _dispatch_retain_unote_owner was taken "
+                        "for it: the source loses two internal references while the application still holds it (e.g. a hang-up on a write source)" % fn.name,
+                        sample={"fn": fn.name, "delivery": c.loc})
+    if n < 4:
+        rep.unknown(rid, "fewer than 4 event deliveries found in the epoll backend (%d)" % n)
+
+
 def run(rep, tier="quick", srcdir=None, only=None):
     prog, units = load(UNITS, tier, srcdir)
     rep.units = units
@@ -366,6 +442,12 @@ def run(rep, tier="quick", srcdir=None, only=None):
         rule_OD5(rep, prog, q)
     if want("C17-TM6"):
         rule_TM6(rep, prog)
+    if want("C17-KA7"):
+        rule_KA7(rep, prog, q)
+    if want("C17-WR8"):
+        rule_WR8(rep, prog, q)
+    if want("C17-MP9"):
+        rule_MP9(rep, prog, q)
     if want("C13-OD2"):
         C13.rule_OD2(rep, prog)      # data objects: returned / stored sub-objects are retained (destructors run exactly once)
     if want("C13-WM3"):
